@@ -234,10 +234,13 @@ def run_program(prog, prefix, opts=None):
                 # conflicting request in progress on the path (from its start to the end of its release - generous on purpose)
                 at = getattr(e, "_verif_step", None)
 
-                def overlaps(a, b):  # is [a, b] (b None = still open) alive at the step where the refusal was decided
-                    if at is None:
-                        return a is not None and (b is None or b >= my_iv["start"])
-                    return a is not None and a <= at and (b is None or b >= at)
+                def overlaps(a, b):
+                    # is [a, b] (b None = still open) alive at some step between the start of this request and the step at which
+                    # the refusal was raised?  (The refusal is decided by a failed try-acquire somewhere in that window; under
+                    # line-level scheduling the raise itself may come many steps later.)
+                    if a is None or (b is not None and b < my_iv["start"]):
+                        return False
+                    return at is None or a <= at
 
                 # justified by: a conflicting request of another thread at any time since this one was made, or any request of
                 # another thread on the path that was being acquired or released in that time (the lock's own bookkeeping is
